@@ -1,5 +1,6 @@
 import SupervisorModel.Model.ProcOps
 import SupervisorModel.Lemmas.ProcDefs
+import SupervisorModel.Lemmas.ProcBackoff
 /-
   C03 — automatic start, retry and restart policy is exactly the configured one.
   Theorems about `Sv.Proc` (guards/timers regenerated from supervisor/process.py).
@@ -9,7 +10,6 @@ set_option linter.unusedVariables false
 namespace Sv.Props.C03
 open Sv Sv.Proc Sv.Gen.Proc
 
-def forks (outs : List Out) : List Out := outs.filter (fun o => match o with | .fork .. => true | _ => false)
 def enters (st : PS) (outs : List Out) : Bool := outs.any (fun o => match o with | .ev to .. => to == st | _ => false)
 
 theorem rollback_pid (cfg : Cfg) (now : Int) (p : Proc) :
@@ -221,5 +221,127 @@ theorem running_exit_is_exited (cfg : Cfg) (p : Proc) (now es : Int) (busy : Boo
         finish_g5, finish_g6, finish_a2, finish_a4, finish_a5, finish_a6, finish_a18, finish_a19, finish_a20, finish_a24,
         finish_c4_0, finish_c5, finish_c6_0, finish_c6_1, finish_c7_0, finish_c7_1, change_state_g0, change_state_g1,
         change_state_a0, change_state_a2, announces_all, g1, g4, hlt, hx]
+
+/-! ### the retry budget over whole histories -/
+
+/-- one operation moves the retry counter by a `BStep` (left alone / reset to 0 outside BACKOFF /
+    BACKOFF entered with exactly one more), for operations with well-formed answers on a process that
+    satisfies the bookkeeping invariant, reaps being for held children -/
+theorem step_bstep (cfg : Cfg) (p : Proc) (op : Op) (hw : wfOp op) (hi : Inv p) (hnn : 0 ≤ p.backoff)
+    (hreap : ∀ now es busy, op = .reap now es busy → p.pid ≠ 0) : BStep p (stepP cfg p op).p := by
+  cases op <;> simp only [stepP, step]
+  · exact (transition_bstep [] cfg p _ _ _ _ hnn).1
+  · rename_i now es busy
+    have hp := hreap now es busy rfl
+    exact finish_bstep cfg p now es busy (fun hb => hp (hi.dead (by simp [hb])))
+  · exact rpcStart_bstep cfg p _ _ _ hw hi hnn
+  · exact rpcStop_bstep ..
+  · exact rpcSignal_bstep ..
+  · exact groupStop_bstep ..
+  · exact stopReport_bstep ..
+
+/-- an *automatic retry*: a main-loop pass forks a child for a process that was in BACKOFF -/
+def isRetry (p : Proc) (op : Op) (r : S) : Bool :=
+  match op with
+  | .transition .. => p.state == .backoff && !(forks r.outs).isEmpty
+  | _ => false
+
+/-- run a history counting the automatic retries made since the retry counter was last reset
+    (by reaching RUNNING, by FATAL, or by an exit after RUNNING) -/
+def runR (cfg : Cfg) : Proc → Nat → List Op → Proc × Nat
+  | p, n, [] => (p, n)
+  | p, n, op :: ops =>
+    let r := stepP cfg p op
+    let n' := if r.p.backoff = 0 then 0 else if isRetry p op r then n + 1 else n
+    runR cfg r.p n' ops
+
+/-- the invariant behind the budget: the retries made are covered by the failure counter, which a
+    pending retry (BACKOFF) has already advanced, and never exceeded `startretries` -/
+structure RInv (cfg : Cfg) (p : Proc) (n : Nat) : Prop where
+  nn : 0 ≤ p.backoff
+  le : (n : Int) ≤ p.backoff
+  lt : p.state = .backoff → (n : Int) + 1 ≤ p.backoff
+  budget : (n : Int) ≤ max 0 cfg.startretries
+
+/-- every history in which reaps are for held children -/
+def Owned (cfg : Cfg) : Proc → List Op → Prop
+  | _, [] => True
+  | p, op :: ops =>
+    (∀ now es busy, op = .reap now es busy → p.pid ≠ 0) ∧ wfOp op ∧ Owned cfg (stepP cfg p op).p ops
+
+theorem rinv_step (cfg : Cfg) (p : Proc) (n : Nat) (op : Op) (hw : wfOp op) (hi : Inv p) (hr : RInv cfg p n)
+    (hreap : ∀ now es busy, op = .reap now es busy → p.pid ≠ 0) :
+    RInv cfg (stepP cfg p op).p
+      (if (stepP cfg p op).p.backoff = 0 then 0 else if isRetry p op (stepP cfg p op) then n + 1 else n) := by
+  have hb := step_bstep cfg p op hw hi hr.nn hreap
+  have hmax : (0 : Int) ≤ max 0 cfg.startretries := Int.le_max_left 0 _
+  have hnn := hr.nn
+  have hle := hr.le
+  by_cases h0 : (stepP cfg p op).p.backoff = 0
+  · simp only [h0, if_true]
+    rcases hb with ⟨_, hns⟩ | ⟨h1, h2⟩ | ⟨h1, _⟩
+    · exact ⟨by omega, by simp [h0], fun hs => absurd hs hns, by simpa using hmax⟩
+    · -- counter unchanged and zero: then n = 0 already and the state is not BACKOFF
+      refine ⟨by omega, by simp [h0], fun hs => ?_, by simpa using hmax⟩
+      have := hr.lt (h2 hs); omega
+    · exfalso; omega
+  · simp only [h0, if_false]
+    by_cases hret : isRetry p op (stepP cfg p op) = true
+    · simp only [hret, if_true]
+      -- a retry: it is a pass from BACKOFF that forked, so the counter is unchanged and within the budget
+      cases op with
+      | transition now mood res kr =>
+        simp only [isRetry, Bool.and_eq_true, beq_iff_eq, Bool.not_eq_true', List.isEmpty_eq_false_iff] at hret
+        obtain ⟨hs, hf⟩ := hret
+        obtain ⟨_, hfk⟩ := transition_bstep [] cfg p now mood res kr hr.nn
+        have hf' : forks (transition cfg now mood res kr { p := p }).outs ≠ forks [] := by
+          simpa [forks, stepP, step] using hf
+        obtain ⟨hle2, hsame, hst⟩ := hfk hs hf'
+        have hlt := hr.lt hs
+        simp only [stepP, step]
+        refine ⟨by rw [hsame]; exact hnn, ?_, ?_, ?_⟩
+        · rw [hsame]; push_cast; omega
+        · intro hsb; rw [hst] at hsb; simp at hsb
+        · push_cast; omega
+      | _ => simp [isRetry] at hret
+    · have hret' : isRetry p op (stepP cfg p op) = false := by simpa using hret
+      simp only [hret', Bool.false_eq_true, if_false]
+      rcases hb with ⟨hz, _⟩ | ⟨h1, h2⟩ | ⟨h1, h2⟩
+      · exact absurd hz h0
+      · exact ⟨by rw [h1]; exact hnn, by rw [h1]; exact hle, fun hs => by rw [h1]; exact hr.lt (h2 hs), hr.budget⟩
+      · exact ⟨by rw [h1]; omega, by rw [h1]; omega, fun _ => by rw [h1]; omega, hr.budget⟩
+
+/-- **Retried automatically at most `startretries` times.**  In every history (any passes, reaps,
+    start/stop/signal requests, group stops; any clock readings incl. backward jumps; any spawn
+    failures and exit statuses), the number of automatic retries made since the retry counter was last
+    reset never exceeds `startretries`. -/
+theorem retry_budget (cfg : Cfg) (ops : List Op) (p : Proc) (n : Nat) (hi : Inv p) (hr : RInv cfg p n)
+    (ho : Owned cfg p ops) : ((runR cfg p n ops).2 : Int) ≤ max 0 cfg.startretries := by
+  induction ops generalizing p n with
+  | nil => exact hr.budget
+  | cons op ops ih =>
+    obtain ⟨h1, h2, h3⟩ := ho
+    simp only [runR]
+    exact ih _ _ (step_inv cfg p op h2 hi) (rinv_step cfg p n op h2 hi hr h1) h3
+
+theorem retry_budget_from_init (cfg : Cfg) (ops : List Op) (ho : Owned cfg {} ops) :
+    ((runR cfg {} 0 ops).2 : Int) ≤ max 0 cfg.startretries :=
+  retry_budget cfg ops {} 0 inv_init ⟨by simp, by simp, by simp, by simpa using Int.le_max_left 0 _⟩ ho
+
+-- non-vacuity: startretries = 2, three failing attempts: two automatic retries, then FATAL
+def cfgR : Cfg where
+  startsecs := 1024
+  startretries := 2
+  autostart := true
+  autorestart := .unexpected
+  exitcodes := [0]
+  stopsignal := 15
+  stopwaitsecs := 10240
+  stopasgroup := false
+  killasgroup := false
+def opsR : List Op := [.transition 1024000 1 (.ok 7) .ok, .reap 1024100 1 false, .transition 1026000 1 (.ok 8) .ok,
+  .reap 1026100 1 false, .transition 1029000 1 (.ok 9) .ok, .reap 1029100 1 false, .transition 1029200 1 (.ok 10) .ok]
+example : (runR cfgR {} 0 (opsR.take 6)).2 = 2 ∧ (runR cfgR {} 0 (opsR.take 6)).1.state = .backoff ∧
+    (runR cfgR {} 0 opsR).1.state = .fatal := by decide +kernel
 
 end Sv.Props.C03
